@@ -233,8 +233,11 @@ func TestC08_Save(t *testing.T) {
 				multiline = true
 			}
 			kws := []string{}
-			for i := rapid.IntRange(0, 2).Draw(t, "nkw"); i > 0; i-- {
+			for i := rapid.IntRange(0, 3).Draw(t, "nkw"); i > 0; i-- {
 				kws = append(kws, flagValue(t, "kw"))
+			}
+			if rapid.IntRange(0, 7).Draw(t, "comma-keyword") == 0 {
+				kws = append(kws, flagValue(t, "kw-a")+","+flagValue(t, "kw-b")) // one keyword with a comma inside
 			}
 			plats := []string{}
 			for i := rapid.IntRange(0, 2).Draw(t, "npl"); i > 0; i-- {
@@ -256,14 +259,28 @@ func TestC08_Save(t *testing.T) {
 				desc = rapid.SampledFrom([]string{"", "", " ", "\n", desc}).Draw(t, "bare-description")
 				ccls, hostile = "bare", true
 			}
-			oneFieldResave := false
+			oneFieldResave, keepFlag := false, false
 			if ccls == "reused" && rapid.Bool().Draw(t, "one-field-resave") {
 				// save an existing entry again with exactly one field changed (or none)
 				for _, m := range model {
 					if m.Command == cmdStr && !m.AutoDesc && m.UserKeywords == nil {
 						pipeline, oneFieldResave = false, true
 						desc, kws, plats, niche = m.Description, append([]string{}, m.Keywords...), append([]string{}, m.Platform...), m.Niche
-						switch rapid.IntRange(0, 5).Draw(t, "changed-field") {
+						cf := rapid.SampledFrom([]int{0, 1, 2, 3, 4, 5, 6, 6, 6, 6}).Draw(t, "changed-field")
+						keepFlag = cf == 6
+						switch cf {
+						case 6:
+							// the same keyword (or platform) text, divided differently: two values become ONE value
+							// with a comma inside (passed CSV-quoted), or the other way round
+							if len(kws) >= 2 {
+								kws = []string{strings.Join(kws, ",")}
+							} else if len(kws) == 1 && strings.Contains(kws[0], ",") {
+								kws = strings.Split(kws[0], ",")
+							} else if len(plats) >= 2 {
+								plats = []string{strings.Join(plats, ",")}
+							} else {
+								kws = append(kws, "one,two")
+							}
 						case 0:
 							desc += " v2"
 						case 1:
@@ -278,11 +295,17 @@ func TestC08_Save(t *testing.T) {
 					}
 				}
 			}
+			csv := func(v string) string { // a value with a comma travels CSV-quoted, as the flag's reader expects
+				if strings.Contains(v, ",") {
+					return `"` + v + `"`
+				}
+				return v
+			}
 			for _, k := range kws {
-				args = append(args, "--keywords="+k)
+				args = append(args, "--keywords="+csv(k))
 			}
 			for _, p := range plats {
-				args = append(args, "--platforms="+p)
+				args = append(args, "--platforms="+csv(p))
 			}
 			if niche != "" {
 				args = append(args, "--category="+niche)
@@ -307,7 +330,7 @@ func TestC08_Save(t *testing.T) {
 				if oneFieldResave {
 					for _, m := range model {
 						if m.Command == cmdStr {
-							setFlag = m.Pipeline != rapid.Bool().Draw(t, "flip-pipeline") // often the only difference
+							setFlag = m.Pipeline != (rapid.Bool().Draw(t, "flip-pipeline") && !keepFlag) // often the only difference
 						}
 					}
 				}
